@@ -8,10 +8,10 @@ open XzVerif.Shell
 ```
 '
   s/'\''/'\''\\'\'''\''/g
-  $s/$/'\''/
+  $s/X$/'\''/
 '
 ``` -/
-def grepEscapeSrc : Bytes := [39, 10, 32, 32, 115, 47, 39, 92, 39, 39, 47, 39, 92, 39, 39, 92, 92, 39, 92, 39, 39, 39, 92, 39, 39, 47, 103, 10, 32, 32, 36, 115, 47, 36, 47, 39, 92, 39, 39, 47, 10, 39]
+def grepEscapeSrc : Bytes := [39, 10, 32, 32, 115, 47, 39, 92, 39, 39, 47, 39, 92, 39, 39, 92, 92, 39, 92, 39, 39, 39, 92, 39, 39, 47, 103, 10, 32, 32, 36, 115, 47, 88, 36, 47, 39, 92, 39, 39, 47, 10, 39]
 
 /-- xzdiff.in:47  `escape=` this shell word
 ```
@@ -24,12 +24,12 @@ def diffEscapeSrc : Bytes := [39, 10, 32, 32, 115, 47, 39, 92, 39, 39, 47, 39, 9
 
 /-- xzgrep.in: the `case … in (GUARD) lhs=PRE$(printf FMT "$var" | LC_ALL=C sed "$escape");; (*) lhs=PLAIN;; esac` sites:
     line 99: optarg: guard `*\'*` pre `" '"` fmt `'%sX\n'` plain `" '$1'"`
-    line 111: operands: guard `*\'*` pre `"$operands '"` fmt `'%s\n'` plain `"$operands '$option'"`
+    line 111: operands: guard `*\'*` pre `"$operands '"` fmt `'%sX\n'` plain `"$operands '$option'"`
     line 149: option: guard `*\'*` pre `\'` fmt `'%sX\n'` plain `"'$option'"`
     line 162: grep: guard `*\'*` pre `"$grep -e '"` fmt `'%sX\n'` plain `"$grep -e '$1'"`
 -/
 def siteOptarg : QuoteSite := ⟨99, [42, 92, 39, 42], [34, 32, 39, 34], [39, 37, 115, 88, 92, 110, 39], [34, 32, 39, 36, 49, 39, 34], [49]⟩
-def siteOperands : QuoteSite := ⟨111, [42, 92, 39, 42], [34, 36, 111, 112, 101, 114, 97, 110, 100, 115, 32, 39, 34], [39, 37, 115, 92, 110, 39], [34, 36, 111, 112, 101, 114, 97, 110, 100, 115, 32, 39, 36, 111, 112, 116, 105, 111, 110, 39, 34], [111, 112, 116, 105, 111, 110]⟩
+def siteOperands : QuoteSite := ⟨111, [42, 92, 39, 42], [34, 36, 111, 112, 101, 114, 97, 110, 100, 115, 32, 39, 34], [39, 37, 115, 88, 92, 110, 39], [34, 36, 111, 112, 101, 114, 97, 110, 100, 115, 32, 39, 36, 111, 112, 116, 105, 111, 110, 39, 34], [111, 112, 116, 105, 111, 110]⟩
 def siteOption : QuoteSite := ⟨149, [42, 92, 39, 42], [92, 39], [39, 37, 115, 88, 92, 110, 39], [34, 39, 36, 111, 112, 116, 105, 111, 110, 39, 34], [111, 112, 116, 105, 111, 110]⟩
 def sitePattern : QuoteSite := ⟨162, [42, 92, 39, 42], [34, 36, 103, 114, 101, 112, 32, 45, 101, 32, 39, 34], [39, 37, 115, 88, 92, 110, 39], [34, 36, 103, 114, 101, 112, 32, 45, 101, 32, 39, 36, 49, 39, 34], [49]⟩
 def grepSites : List QuoteSite := [siteOptarg, siteOperands, siteOption, sitePattern]
